@@ -863,6 +863,24 @@ pub fn record(args: &Args) {
             // the receivers of the mode-0 messages, so that the bundle is otherwise valid
             Sx::list(conds)
         };
+        // messages: under COST_CONDITIONS they are charged instead of counted, so more than 1024 sends AND more than 1024
+        // receives in one spend must pass (mode 0: no commitments, message i sent once and received once); before the
+        // fork 1024 of them pass and 1026 do not
+        for (pairs, fl) in [(512usize, vec!["DONT_VALIDATE_SIGNATURE"]), (513, vec!["DONT_VALIDATE_SIGNATURE"]), (512, vec!["DONT_VALIDATE_SIGNATURE", "COST_CONDITIONS"]),
+                            (1026, vec!["DONT_VALIDATE_SIGNATURE", "COST_CONDITIONS"])] {
+            let flags: Vec<String> = fl.iter().map(|x| (*x).to_string()).collect();
+            let mut conds = Vec::new();
+            for i in 0..pairs {
+                conds.push(Sx::list(vec![Sx::A(vec![66]), Sx::uint(0), Sx::uint(i as u128 + 1)]));
+            }
+            for i in 0..pairs {
+                conds.push(Sx::list(vec![Sx::A(vec![67]), Sx::uint(0), Sx::uint(i as u128 + 1)]));
+            }
+            let tree = Sx::list(vec![Sx::list(vec![Sx::list(vec![Sx::A(h1.clone()), Sx::A(h2.clone()), Sx::uint(5), Sx::list(conds)])])]);
+            let mut e = event(&tree, &flags, 11_000_000_000, 0, "mempool", &consts);
+            e["src"] = json!("announce-limit");
+            out.emit(&e);
+        }
         for (count, two) in [(1023usize, false), (1024, false), (1025, false), (1024, true)] {
             for fl in [vec!["DONT_VALIDATE_SIGNATURE"], vec!["DONT_VALIDATE_SIGNATURE", "COST_CONDITIONS"]] {
                 let flags: Vec<String> = fl.iter().map(|x| (*x).to_string()).collect();
